@@ -224,6 +224,9 @@ class RefServer(object):
                 os.close(pw)
                 sim.cf.active = False
                 sim.cf.armed = []
+                # a fresh process has its own global RNG state (unpinned comparisons must not share it)
+                from . import prng as _prng
+                np.random.seed(_prng.derive_int(sim.spec.get("seed"), sim.spec.get("run"), "np-global-reference") % (2 ** 32))
                 fin = os.fdopen(cr, "rb")
                 fout = os.fdopen(cw, "wb")
                 while True:
@@ -386,7 +389,8 @@ class DataSim(object):
             if self.stats.get("fired:" + k):
                 fired[k] += self.stats["fired:" + k]
         return {"violation": self.violation, "digest": digest, "stats": dict(self.stats), "fired": dict(fired),
-                "states": sorted(self.states), "log": logs, "steps": len(self.ops)}
+                "states": sorted(self.states), "log": logs, "steps": len(self.ops),
+                "sim_time": float(self.env.span + 0.001 * self.stats.get("ref_evals", 0))}
 
     def prepare(self):
         """Materialise the world, build probe and live dataset.  Returns False when nothing can be stepped."""
